@@ -333,7 +333,7 @@ BASE_ENV = {
 }
 
 
-def execute(rundir, argv, cwd, tz, plan_text, timeout=60.0, binary=None, keep_plan=False, config_text=None):
+def execute(rundir, argv, cwd, tz, plan_text, timeout=60.0, binary=None, keep_plan=False, config_text=None, nofile=None):
     """Run the binary once under the shim. rundir is a private scratch directory."""
     plan_path = os.path.join(rundir, "plan")
     log_path = os.path.join(rundir, "log")
@@ -357,8 +357,13 @@ def execute(rundir, argv, cwd, tz, plan_text, timeout=60.0, binary=None, keep_pl
     t0 = time.time()
     with open(out_path, "wb") as fo, open(err_path, "wb") as fe:
         try:
+            pre = None
+            if nofile:
+                # a small descriptor table (RLIMIT_NOFILE): the kernel enforces it, deterministically for a single-threaded run
+                import resource
+                pre = lambda: resource.setrlimit(resource.RLIMIT_NOFILE, (nofile, nofile))
             p = subprocess.run([binary or BINARY] + list(argv), cwd=cwd, env=env, stdin=subprocess.DEVNULL,
-                               stdout=fo, stderr=fe, timeout=timeout)
+                               stdout=fo, stderr=fe, timeout=timeout, preexec_fn=pre)
             rc = p.returncode
         except subprocess.TimeoutExpired:
             rc = None
@@ -415,10 +420,10 @@ class Sandbox:
             config = plan.get("config")  # a configuration file as part of the environment E
         text = compile_plan(plan, self.world, self.root)
         self.nexec += 1
-        res = execute(self.base, argv, os.path.join(self.root, cwd), tz, text, timeout=timeout, config_text=config)
+        res = execute(self.base, argv, os.path.join(self.root, cwd), tz, text, timeout=timeout, config_text=config, nofile=plan.get("nofile"))
         if res.sim == "TIMEOUT":
             # backstop only: reproduce once before believing it (DESIGN 4.2)
-            res2 = execute(self.base, argv, os.path.join(self.root, cwd), tz, text, timeout=timeout, config_text=config)
+            res2 = execute(self.base, argv, os.path.join(self.root, cwd), tz, text, timeout=timeout, config_text=config, nofile=plan.get("nofile"))
             if res2.sim != "TIMEOUT":
                 raise HarnessError("unreproduced wall-clock timeout")
             return res2
